@@ -1,7 +1,68 @@
 """C15 - the DictList operations NAMED in the property that had no contract: query, pickling (__reduce__, __getstate__, the
 round-trip lemma), __setslice__, list_attr, __dir__  (hook table HOOKS; keys KEYS; lemmas()).
 
-DOCSTRING_PLACEHOLDER
+All for a DictList of ANY length over the real source of /repo/src/cobra/core/dictlist.py.
+
+DictList.query(search_function, attribute=None) - six cases = three predicate shapes x (attribute None / a string):
+    callable            the selection predicate is  f(element)  resp.  f(getattr(element, attribute))
+    str (a pattern)     re.compile(s).findall(element.id) != []   resp.  ...findall(getattr(element, attribute)) != []
+    compiled pattern    the same with the pattern itself (re.compile(p) is p)
+  PROVED (post-condition from the docstring "a new list of objects which match the query" and the property): the result is a NEW
+  DictList (allocated during the call, not self, also when everything matches), well formed (WF), and an order-preserving sub-list of
+  self holding EXACTLY the selected elements: ghost index maps src / dst of the filtered comprehension (result[j] = self[src[j]], src
+  strictly increasing, every selected position i has dst[i] with src[dst[i]] = i) and, without ghosts, `an element of self is found in
+  the result under its identifier <=> it is selected`; self (list and index) unchanged; no exception.
+  The generator `matches` is consumed by `results._extend_nocheck(matches)`: the hook materialises it (list.extend consumes a generator
+  once, in order) and applies the PROVED contract DictList._extend_nocheck, whose precondition (pairwise different new identifiers,
+  none present in the - empty - receiver) is OBLIGED at the call site from WF(self) and the ghost maps; a call-site lemma (obliged)
+  states that the elements of the receiver afterwards are the items.  `self.__class__()` by the proved contract of DictList.__init__.
+  STATED PRECONDITIONS / ASSUMPTIONS: self is well formed; the search function is a PURE predicate (uninterpreted query_pred_*: same
+  answer for the same argument, does not touch the list); every element HAS the attribute (else AttributeError) and, in the four
+  regular-expression cases, its value is a str (natively a None value - e.g. `name = None` - makes query raise TypeError from
+  findall, lazily inside _extend_nocheck, with self untouched; elements with a None attribute are NOT skipped); a pattern string is a
+  valid regular expression (else re.error); CPython `re`: compile(str) a pattern determined by the string, compile(pattern) that very
+  pattern, compile(function) TypeError (checked natively); `findall(s) != []` as the uninterpreted predicate re_findall_nonempty.
+  Natively: a callable str subclass is taken as a PATTERN (re.compile succeeds), not called - outside the three documented shapes.
+DictList.list_attr(attribute): a NEW plain list as long as self whose j-th entry is getattr(self[j], attribute) (py_getattr), self
+  unchanged; stated precondition: every element has the attribute.
+DictList.__getstate__: a NEW dictionary with the single entry "_dict" -> the index object itself; __reduce__: the 4-tuple (class
+  DictList, (), that state dictionary, an iterator over exactly the elements of self in order); nothing written.
+  lemmas(): the pickle ROUND TRIP from the very post-conditions of the proved contracts __init__ / extend / append / __setstate__ (see
+  its docstring): unpickling copies that carry the identifiers of their originals yields a WELL-FORMED list of the same length with
+  the same identifiers in the same order and an index equal to the original's; the non-raising `requires` of every step is a goal
+  (no ValueError on the way).  ASSUMED: pickle's protocol for a reduce value with list items (cls(*args); extend per batch / append
+  for a batch of one; then __setstate__(state)) and that an unpickled Object keeps its identifier (hypothesis COPY; without it the
+  lemmas fail: `lemmas(_drop_copy=True)`).
+DictList.__dir__: the new list dir(DictList) (ASSUMED: a new list of strings) + "_dict" + every identifier of the index, each at a
+  definite position (ghost enumeration of the dictionary); nothing written.
+NOT under contract: __setslice__ (with __getslice__ / __delslice__, which ARE proved in c15_dictlist, a Python 2 relic: natively under
+  Python 3.12 slicing syntax never calls any of the three - DEAD CODE unless called explicitly; it forwards to
+  __setitem__(slice(i, j), y), whose slice branch has no contract (placeholder None values in the index inside try / finally): not cheap).
+
+INHERITED list methods DictList does NOT override (set(dir(list)) - set(DictList.__dict__), CPython 3.12) - OUTSIDE the claim:
+  mutators that DESYNCHRONISE the index (native reproduction, dl = DictList(Object(i) for i in "abc")):
+    dl.clear()            list empty, index still {'a': 0, 'b': 1, 'c': 2}: "a" in dl is True, dl.get_by_id("a") IndexError, dl.append(Object("a"))
+                          ValueError "already present"
+    dl *= 2 / dl *= 0     (__imul__) ['a','b','c','a','b','c'] resp. [] with the old index; dl *= 1 harmless
+    list.__init__(dl, xs) (re-initialisation through the base class) replaces the elements, index stale
+  non-mutating, return a PLAIN list (no index at all): dl.copy() (the METHOD; copy.copy(dl) uses the proved __copy__ and gives a
+    coherent DictList), dl * 2, 2 * dl, reversed(dl) / iter(dl) (iterators)
+  harmless (read-only): __len__, __iter__, __reversed__, count, __eq__ / __ne__ / __lt__ / __le__ / __gt__ / __ge__, __repr__, __str__,
+    __format__, __sizeof__, __hash__ (None), __class_getitem__, __reduce_ex__ (calls the proved __reduce__), object machinery
+    (__class__, __new__, __getattribute__, __setattr__, __delattr__, __init_subclass__, __subclasshook__)
+  (list.__iadd__ IS overridden: DictList.__iadd__ is proved.)
+
+Mutation trials (tools/mutate_and_run.sh cobra/core/dictlist.py ... contracts.c15_query --hooks HOOKS <key>), each NOT verified:
+  query `return results` -> `return self if len(results) == len(self) else results`      post (sat) in every case
+  query `results = self.__class__()` -> `results = self`                                  call:_extend_nocheck/pre (sat), extend-items-len, post
+  query callable branch `if search_function(...)` -> `if not search_function(...)`        post.9 / post.10 (sat), post.7 unknown
+  query attribute branch `findall(select_attribute(i))` -> `findall(i.id)`                *_on_attribute post.9 / post.10 (sat)
+  query select_attribute `if attribute is None` -> `if attribute is not None`             callable_on_attribute post.9 / post.10 (sat)
+  __getstate__ `return {"_dict": self._dict}` -> `return self._dict`                      __getstate__ post (sat)
+  __reduce__ `()` -> `(self,)`;  state and iterator swapped                               __reduce__ post (sat), both
+  list_attr `for i in self` -> `for i in self._dict`                                      unexpected AttributeError + post (sat)
+  list_attr `getattr(i, attribute)` -> `getattr(i, "id")`;  `... for i in self if i.id != attribute`     post (sat), both
+  __dir__ without `attributes.append("_dict")`;  append and extend swapped                post.1-3 resp. post.2 / post.3 (sat)
 """
 import z3
 from .common import *  # noqa
@@ -69,7 +130,7 @@ def _call_abstract(eng, st, f, pos, kw):
         from pyvc.state import alloc_list
         n = fresh("dir_len", z3.IntSort())
         st2, l = alloc_list(st.assume(n >= 0), "id", base="dir", length=n)
-        return [("ok", st2.setghost("dir_list", l), l)]
+        return [("ok", st2.setghost("dir_list", l).setghost("dir_len0", n), l)]
     raise Unsupported(f"abstract call {f.a}")
 
 
@@ -309,3 +370,123 @@ REG.add(Contract(M, "DictList.__reduce__", "C15", [SELF], [Case("any", ensures=_
                       "over exactly the elements of self in order); nothing written"))
 
 KEYS += ["DictList.list_attr", "DictList.__getstate__", "DictList.__reduce__"]
+
+
+# ================================================================ the pickle round trip, from the very contracts
+def lemmas(_drop_copy=False, prefix="C15"):
+    """What unpickling does with the reduce value (cls, (), state, iterator) is CPython's (trusted): new = cls(); the items - COPIES of
+    the elements, each carrying the identifier of its original (hypothesis COPY) - are added in batches, `new.extend(batch)` for a
+    batch of several, `new.append(x)` for a batch of one; then `new.__setstate__(state)`.  With the invariant
+        INV(p): new is well formed, has p elements, element j is copy j
+    the obligations are closed formulas over synthetic states whose hypotheses are the POST-CONDITIONS of the proved contracts
+    (DictList.__init__ / extend / append / __setstate__) and whose goals are the next contract's non-raising `requires` and INV:
+      base, step-extend (requires + INV(q)), step-append (requires + INV(p + 1)), final (requires + conclusion).
+    `_drop_copy=True` leaves the hypothesis COPY out (a check that the lemmas are NOT provable without it: the three `requires`
+    obligations and the conclusion must then fail)."""
+    from pyvc.engine import Engine, Obl
+    from pyvc.state import State
+    from pyvc.loops import havoc_locations
+    eng = Engine(REG)
+    st, orig = TDictList("Object").make(State(), "rt_orig")
+    st, nw = TDictList("Object").make(st, "rt_new")
+    st, xs = TList(C15.OBJ).make(st, "rt_copies")
+    st, bt = TList(C15.OBJ).make(st, "rt_batch")
+    ida = eng.heap_arr(st, "_id")
+    n, eo = L(st, orig)
+    do, vo = Dv(st, orig)
+    nx, ex = L(st, xs)
+    nb, eb = L(st, bt)
+    p, q = z3.Int("rt_p"), z3.Int("rt_q")
+    j = qv("rt")
+    E_ = Env({"self": orig}, st, st, eng=eng)
+    COPY = [WF(E_, st, orig), nx == n,
+            FA([j], z3.Implies(z3.And(0 <= j, j < n), ida[ex[j]] == ida[eo[j]]), patterns=[ex[j], eo[j]])]
+    if _drop_copy:
+        COPY = COPY[:2]
+
+    def inv(s, t):
+        m, e = L(s, nw)
+        jj = qv("iv")
+        return [WF(E_, s, nw), m == t, 0 <= t, t <= n, FA([jj], z3.Implies(z3.And(0 <= jj, jj < t), e[jj] == ex[jj]), patterns=[e[jj]])]
+
+    def hav(s, locs):
+        return havoc_locations(eng, s, locs)
+    out = []
+    P = prefix + "/lemma/dictlist-pickle-round-trip/"
+    # base: DictList()
+    c_init = REG.get("DictList.__init__").cases[0]
+    E0 = Env({"self": nw, "args": VTuple(())}, st, eng=eng)
+    s1 = hav(st, C15._init_mod(E0))
+    E01 = Env({"self": nw, "args": VTuple(())}, st, s1, res=nw, eng=eng)
+    hb = COPY + list(s1.pc) + [c_init.ensures(E01)]
+    out.append(Obl(P + "base", hb, z3.And(*inv(s1, z3.IntVal(0))), "lemma"))
+    # step: extend(batch), batch = copies p .. q-1
+    c_ext = REG.get("DictList.extend")
+    Ee = Env({"self": nw, "iterable": bt}, st, eng=eng)
+    BATCH = [p <= q, q <= n, nb == q - p, FA([j], z3.Implies(z3.And(0 <= j, j < q - p), eb[j] == ex[p + j]), patterns=[eb[j]])]
+    hs = COPY + inv(st, p) + BATCH
+    out.append(Obl(P + "step-extend:requires", hs, c_ext.cases[0].requires(Ee), "lemma"))
+    s1 = hav(st, c_ext.modifies(Ee))
+    Ee1 = Env({"self": nw, "iterable": bt}, st, s1, eng=eng)
+    out.append(Obl(P + "step-extend:invariant", hs + list(s1.pc) + [c_ext.cases[0].ensures(Ee1)], z3.And(*inv(s1, q)), "lemma"))
+    # step: append(copy p)
+    c_app = REG.get("DictList.append")
+    Ea = Env({"self": nw, "entity": VRef(ex[p], "Object")}, st, eng=eng)
+    ha = COPY + inv(st, p) + [p < n]
+    out.append(Obl(P + "step-append:requires", ha, c_app.cases[0].requires(Ea), "lemma"))
+    s1 = hav(st, c_app.modifies(Ea))
+    Ea1 = Env({"self": nw, "entity": VRef(ex[p], "Object")}, st, s1, eng=eng)
+    out.append(Obl(P + "step-append:invariant", ha + list(s1.pc) + [c_app.cases[0].ensures(Ea1)], z3.And(*inv(s1, p + 1)), "lemma"))
+    # final: __setstate__(state)
+    c_ss = REG.get("DictList.__setstate__")
+    Es = Env({"self": nw, "state": NONE}, st, eng=eng)
+    hf = COPY + inv(st, n)
+    out.append(Obl(P + "final:requires", hf, c_ss.cases[0].requires(Es), "lemma"))
+    s1 = hav(st, c_ss.modifies(Es))
+    Es1 = Env({"self": nw, "state": NONE}, st, s1, eng=eng)
+    m1, e1 = L(s1, nw)
+    d1, v1 = Dv(s1, nw)
+    k = qv("rk", Id)
+    concl = z3.And(WF(E_, s1, nw), m1 == n,
+                   FA([j], z3.Implies(z3.And(0 <= j, j < n), z3.And(e1[j] == ex[j], ida[e1[j]] == ida[eo[j]])), patterns=[e1[j], eo[j]]),
+                   FA([k], z3.And(z3.Select(d1, k) == z3.Select(do, k), z3.Implies(z3.Select(do, k), v1[k] == vo[k])),
+                      patterns=[z3.Select(d1, k), z3.Select(do, k)]))
+    hfin = hf + list(s1.pc) + [c_ss.cases[0].ensures(Es1)]
+    out.append(Obl(P + "final:same-identifiers-same-order-same-index", hfin, concl, "lemma"))
+    # vacuity guards: no hypothesis set is (cheaply) contradictory
+    for nm, hy in (("base", hb), ("step", hs), ("append", ha), ("final", hfin)):
+        probe = z3.Solver()
+        probe.set("timeout", 5000)
+        probe.add(*hy)
+        if probe.check() == z3.unsat:
+            raise RuntimeError(f"c15_query.lemmas: contradictory hypotheses in {nm} (vacuous lemma)")
+    return out
+
+
+# ================================================================ __dir__
+def _dir_post(E):
+    le = _new_plain_list(E)
+    dl = E.s1.ghost.get("dir_list")
+    if le is None or dl is None or dl.oid != E.res.oid:
+        return z3.BoolVal(False)
+    m, el = le
+    d0 = E.s1.ghost.get("dir_len0")
+    dom, _ = Dv(E.s0, E["self"])
+    drec = E.s0.objs[dict_of(E.s0, E["self"]).oid]
+    g = E.s1.ghost.get(("order", dict_of(E.s0, E["self"]).oid, drec["dom"].get_id()))
+    if g is None or d0 is None:
+        return z3.BoolVal(False)
+    order, pos, card = g
+    k = qv("dk", Id)
+    return z3.And(m == d0 + 1 + card, z3.Select(el, d0) == unwrap(VConc("_dict"), "id"),
+                  # every identifier in the index is listed (at a position after the class attributes)
+                  FA([k], z3.Implies(z3.Select(dom, k), z3.And(0 <= pos[k], pos[k] < card, z3.Select(el, d0 + 1 + pos[k]) == k)),
+                     patterns=[z3.Select(dom, k)]),
+                  unchanged_dl(E, E["self"]))
+
+
+REG.add(Contract(M, "DictList.__dir__", "C15", [SELF], [Case("any", ensures=_dir_post)], pre=lambda E: TRUE(), key="DictList.__dir__",
+                 note="PROVED: the NEW list dir(DictList) (assumed: a new list of strings) + ['_dict'] + every identifier of the index "
+                      "(each at a definite position, ghost enumeration of the dictionary); nothing written"))
+
+KEYS += ["DictList.__dir__"]
